@@ -527,7 +527,13 @@ fn gen_hull(rng: &mut Rng, tier: Tier) -> Sc {
     // the length unit is arbitrary (the library's own absolute tolerances, 1e-10 in the circle
     // intersection, put a floor under it: nothing below 1e-6 is generated)
     if rng.chance(0.3) {
-        let sc = *rng.pick(&[1e-6, 1e-3, 1e3, 1e6]);
+        let mut sc = *rng.pick(&[1e-6, 1e-3, 1e3, 1e6]);
+        // the floor is on the unit the cloud ends up with: a cloud whose own spread is below one
+        // (gaussian or on-circle with a scale under 1) would be carried below it by 1e-6
+        let spread = pts.iter().fold(0.0f64, |a, p| a.max(p[0].abs()).max(p[1].abs()));
+        if sc * spread < 1e-5 {
+            sc = 1e-3;
+        }
         for p in pts.iter_mut() {
             *p = [p[0] * sc, p[1] * sc];
         }
